@@ -4,6 +4,11 @@ import json, os
 V = os.path.dirname(os.path.dirname(os.path.abspath(__file__)))
 
 CHECKS = {
+    "C06": dict(
+        text="Coq theorems: exactly gzip and msgpackzip have a compressor and the frame decoder uses the same test (none and every unknown type are treated as uncompressed on both ends); for ANY codec pair with the round-trip law a compressed call frame decodes to the original argument and tags and the reply to a pending compressed call decodes to the original result, for all values and sizes; the pooled gzip readers as a transition system: under every interleaving of any number of Decompress calls with failing ones in between, each call on a well-formed input returns its own decompression and each on a malformed one fails, and no broken reader enters the pool (returning a reader after a failed Reset is refuted with a witness). The harness compares compressed and uncompressed calls both ways for generated values and the four type cases, round-trips empty/tiny/incompressible/repetitive/large payloads through the package's compressors, flips every byte of small gzip payloads (error or the original, never another value, never a panic), and shares the pools between up to 16 goroutines with failing decompressions in between.",
+        note="PARTIAL: DEFLATE/CRC-32/msgpackzip themselves are behind the round-trip hypothesis of the transparency theorems (their round trip, corruption detection and absence of panics are tested, not proved). Trusted: Coq kernel, extraction + OCaml glue, Go harness.",
+        technique="Coq proof (frame-level transparency for every codec with the round-trip law; reader-pool LTS invariant over all interleavings) + differential correspondence and corruption sweep on the implementation",
+        design="6/C06"),
     "C19": dict(
         text="Coq theorems over an explicit heap of mutable maps and immutable contexts, for EVERY sequence of build-map / add-tags / read-tags / mutate-any-client-held-map operations: no map stored in a context is ever one the client holds, the tags seen through every previously derived context never change, a new context sees parent-extended-by-added, a read is a copy; both ways of omitting a copy are refuted with witnesses; the rule for which tags travel (context tags joined by selected context values for calls, context tags only for notifications, none when empty). The extracted heap model is run against AddRPCTagsToContext / TagsFromContext on all derivation sequences up to a bound plus random longer ones, and the frames written by the real client for calls, compressed calls and notifications are compared with the model's traveling tags.",
         note="Trusted: Coq kernel, extraction + OCaml glue, Go harness. The two copy facts are regenerated from context.go's order census (tcfg_generated_ok). Delivery into the handler's context is covered by C01/C02 (decode side).",
